@@ -403,10 +403,12 @@ end alone
 /-! ### from the single token to the license -/
 
 /-- **a stored name alone**: a text whose folded words are those of names that all belong to the license
-    `s` — whatever its letter case and the blanks between its words — parses to `s` -/
-theorem parse_alone (c : Cls) (hc : ClsOK c) (T : Table) (text : Str) (s : Sym)
+    `s` — whatever its letter case and the blanks between its words — parses to `s`, also strictly
+    unless `s` is an exception -/
+theorem parse_alone_strict (c : Cls) (hc : ClsOK c) (T : Table) (text : Str) (s : Sym) (strict : Bool)
+    (hstrict : strict = true → s.exc = false)
     (hne : wordsOf c text ≠ []) (hown : OwnedBy c T (wordsOf c text) s) :
-    parseFull c T false false false text = .ok (.atom (.lic s)) := by
+    parseFull c T false strict false text = .ok (.atom (.lic s)) := by
   obtain ⟨hk, e, ho, hew, hval⟩ := buildTrie_lookup c T _ hne s hown
   obtain ⟨first, last, _, _, htok⟩ := tokenize_alone c (buildTrie c T) hk text e hne ho hew
   have hnb : (text.isEmpty || isBlank c text) = false := by
@@ -420,14 +422,40 @@ theorem parse_alone (c : Cls) (hc : ClsOK c) (T : Table) (text : Str) (s : Sym)
       | true => exact absurd (blank_no_words c hc text hb) hne
   unfold parseFull parseFullW
   simp only [hnb, Bool.false_eq_true, ↓reduceIte]
-  have hl : ltokW c T (buildTrie c T) false false text =
+  have hl : ltokW c T (buildTrie c T) false strict text =
       .ok [⟨.sym (.lic s), slice text first.start last.stop, first.start⟩] := by
     unfold ltokW rawTokensW advancedTokensW
     simp only [Bool.false_eq_true, ↓reduceIte, htok, List.map_cons, List.map_nil, ofTok, hval]
     have hm := mergeUnknown_known c [(⟨first.start, last.stop, slice text first.start last.stop, SVal.sym s⟩ : STok)]
       (by intro t ht; simp at ht; subst ht; simp)
-    simp [bind, Except.bind, hm, groupWith, single, Except.map, toPToks, toPTok]
+    have hx : (strict && s.exc) = false := by
+      cases strict with
+      | false => rfl
+      | true => simp [hstrict rfl]
+    simp [bind, Except.bind, hm, groupWith, single, Except.map, toPToks, toPTok, hx]
   rw [hl]
   rfl
+
+theorem parse_alone (c : Cls) (hc : ClsOK c) (T : Table) (text : Str) (s : Sym)
+    (hne : wordsOf c text ≠ []) (hown : OwnedBy c T (wordsOf c text) s) :
+    parseFull c T false false false text = .ok (.atom (.lic s)) :=
+  parse_alone_strict c hc T text s false (by intro h; cases h) hne hown
+
+/-- … and validates without errors: `validate()` reports the canonical key and no error -/
+theorem validate_alone (c : Cls) (hc : ClsOK c) (T : Table) (text : Str) (s : Sym) (strict : Bool)
+    (hstrict : strict = true → s.exc = false) (hknown : (knownKeys T).contains s.key = true)
+    (hne : wordsOf c text ≠ []) (hown : OwnedBy c T (wordsOf c text) s) :
+    validateFull c T strict text = .info ⟨some s.key, 0, []⟩ := by
+  have h1 := parse_alone_strict c hc T text s strict hstrict hne hown
+  have h2 := parse_alone c hc T text s hne hown
+  unfold parseFull at h1 h2
+  unfold validateFull validateFullW
+  rw [h1]
+  simp only [h2]
+  have hk : unknownKeys (knownKeys T) (Expr.atom (Atom.lic s)) true = [] := by
+    have hmem : s.key ∈ knownKeys T := by simpa using hknown
+    simp [unknownKeys, unknownSymbols, licenseSymbols, literals, Atom.decompose, keysOf, orderedUniqueAcc, atomKey, hmem,
+      List.filter_cons]
+  simp [hk, renderStr, renderWith, Atom.render]
 
 end LE
